@@ -703,9 +703,12 @@ def edit_ops(r, cfg, sp, nm):
                {"op": "subject_to", "expr": [">=", ["s", "w%d" % n], ["c", G.rnum(r, -2, 0)]]},
                {"op": "add_objective", "expr": ["sq", ["-", ["s", "w%d" % n], ["c", G.rnum(r)]]]}]
     elif k == "chain":
-        # guesses that build on each other, given in their natural order (rockit evaluates a guess expression at the
-        # current starting point): a <- number, b <- 3 a + c, signal <- b * f(t).  The two links are variables of their
-        # own, never guessed again; the signal may get another guess later.
+        # guesses that build on each other (rockit evaluates a guess expression at the current starting point):
+        # signal <- b * f(t), b <- 3 a + c, a <- number -- given dependents first.  rockit keeps its guess table newest
+        # first and applies it twice per transcription, so only this order is resolved the same way whatever the
+        # history (given a, b, signal before the first transcription the signal starts from the half-resolved b; given
+        # after it, from the resolved one: seen in a soak, and no statement covers such chains).  The two links are
+        # variables of their own, never guessed again; the signal may get another guess later.
         tg = [t for t, s_ in G.guess_targets(sp) if s_ is not None and s_["kind"] in ("state", "control") and s_.get("rows", 1) * s_.get("cols", 1) == 1]
         n = 1
         while sp.sym("k%da" % n):
@@ -714,9 +717,9 @@ def edit_ops(r, cfg, sp, nm):
             a_, b_ = "k%da" % n, "k%db" % n
             out = [{"op": "sym", "name": a_, "kind": "variable", "chain": True}, {"op": "sym", "name": b_, "kind": "variable", "chain": True},
                    {"op": "add_objective", "expr": ["+", ["sq", ["-", ["s", a_], ["c", G.rnum(r)]]], ["sq", ["-", ["s", b_], ["c", G.rnum(r)]]]]},
-                   {"op": "set_initial", "x": a_, "g": ["num", G.rnum(r)]},
+                   {"op": "set_initial", "x": G.pick(r, tg), "g": ["expr", ["*", ["s", b_], ["+", ["c", 1.0], G.gen_time_expr(r)]]]},
                    {"op": "set_initial", "x": b_, "g": ["expr", ["+", ["*", ["c", 3.0], ["s", a_]], ["c", G.rnum(r)]]]},
-                   {"op": "set_initial", "x": G.pick(r, tg), "g": ["expr", ["*", ["s", b_], ["+", ["c", 1.0], G.gen_time_expr(r)]]]}]
+                   {"op": "set_initial", "x": a_, "g": ["num", G.rnum(r)]}]
     elif k == "method" and sp.method:
         out = [{"op": "method", "m": G.gen_method(r, cfg, sp, N=N)}]
     elif k == "T" and sp.T[0] in ("num", "free"):
